@@ -1,3 +1,4 @@
+\* design mutant: Certify skipped for the named 'direct' solver; Certified must be violated
 \* exhaustive: every 2x2 input over the entry sets, every constraint configuration
 SPECIFICATION Spec
 CONSTANTS
@@ -6,7 +7,7 @@ CONSTANTS
   RhsVals = {0, 1}
   DropTols = {0, 1}
   Kinds = {"solve", "droptol", "project"}
-  CertifyDirect = TRUE
+  CertifyDirect = FALSE
   Given = FALSE
   Emitting = FALSE
 INVARIANT ConsExact
